@@ -544,3 +544,218 @@ def c_driver(mod, methods, calls):
         L.append("  }")
     L.append("  return 0;\n}")
     return "\n".join(L)
+
+
+# ------------------------------------------------------------------ C++ driver (C02)
+
+CPP_PRELUDE = r'''
+#include <cstdio>
+#include <cstdint>
+#include <cstring>
+#include <string>
+#include <string_view>
+#include <optional>
+#include <memory>
+#include "Op.hpp"
+extern "C" void* diplomat_alloc(size_t size, size_t align);
+static float f32_bits(unsigned long long b) { uint32_t x = (uint32_t)b; float f; memcpy(&f, &x, 4); return f; }
+static double f64_bits(unsigned long long b) { uint64_t x = b; double f; memcpy(&f, &x, 8); return f; }
+static unsigned long long bits_f32(float f) { uint32_t x; memcpy(&x, &f, 4); return x; }
+static unsigned long long bits_f64(double f) { uint64_t x; memcpy(&x, &f, 8); return x; }
+static void dump_log() { std::string s = Op::take_log(); printf("log %s|\n", s.c_str()); }
+'''
+
+
+def cpp_ty(mod, ty):
+    k = ty[0]
+    if k == "prim": return PRIMS[ty[1]][1]
+    if k in ("enum", "struct"): return ty[1]
+    if k == "zst": return "Zs"
+    if k == "opt": return f"std::optional<{cpp_ty(mod, ty[2])}>"
+    raise ValueError(ty)
+
+
+def cpp_make(mod, ty, v, pre, uid):
+    k = ty[0]
+    if k == "prim":
+        rust, c, bits, kind = PRIMS[ty[1]]
+        if kind == "b": return "true" if v else "false"
+        if kind == "f": return f"f{bits}_bits(0x{v:x}ULL)"
+        if kind == "u": return f"(({c}){v}ULL)"
+        return f"(({c})({v}LL))" if v != -2**63 else f"(({c})(-9223372036854775807LL - 1))"
+    if k == "enum":
+        return f"{ty[1]}({ty[1]}::V{v})"
+    if k == "struct":
+        return ty[1] + "{" + ", ".join(cpp_make(mod, t, v[f], pre, uid) for f, t in mod.structs[ty[1]]) + "}"
+    if k == "oref":
+        n = uid(); pre.append(f"std::unique_ptr<Op> {n} = Op::new_({v}LL);")
+        return f"*{n}"
+    if k == "oopt":
+        if v is None: return "nullptr"
+        n = uid(); pre.append(f"std::unique_ptr<Op> {n} = Op::new_({v}LL);")
+        return f"{n}.get()"
+    if k == "slice":
+        c = PRIMS[ty[1]][1]
+        const = "const " if ty[2] == "ref" else ""
+        if not v:
+            return f"diplomat::span<{const}{c}>(({const}{c}*)nullptr, (size_t)0)"
+        n = uid()
+        elems = ", ".join(cpp_make(mod, ("prim", ty[1]), x, pre, uid) for x in v)
+        if ty[2] == "box":
+            pre.append(f"{c}* {n} = ({c}*)diplomat_alloc(sizeof({c}) * {len(v)}, alignof({c}));")
+            pre.append(f"{{ {c} tmp[] = {{{elems}}}; memcpy({n}, tmp, sizeof tmp); }}")
+        else:
+            pre.append(f"{c} {n}[] = {{{elems}}};")
+        return f"diplomat::span<{const}{c}>({n}, (size_t){len(v)})"
+    if k == "str":
+        wide = ty[1] == "d16"
+        c, view = ("char16_t", "std::u16string_view") if wide else ("char", "std::string_view")
+        if not v:
+            return f"{view}()"
+        n = uid()
+        elems = ", ".join(f"({c}){x}" for x in v)
+        if ty[2] == "box":
+            pre.append(f"{c}* {n} = ({c}*)diplomat_alloc(sizeof({c}) * {len(v)}, alignof({c}));")
+            pre.append(f"{{ {c} tmp[] = {{{elems}}}; memcpy({n}, tmp, sizeof tmp); }}")
+        else:
+            pre.append(f"{c} {n}[] = {{{elems}}};")
+        return f"{view}({n}, (size_t){len(v)})"
+    if k == "opt":
+        t = cpp_ty(mod, ty)
+        return "std::nullopt" if v is None else f"{t}({cpp_make(mod, ty[2], v[0], pre, uid)})"
+    if k == "optslice":
+        c = PRIMS[ty[1]][1]
+        return "std::nullopt" if v is None else f"std::optional<diplomat::span<const {c}>>({cpp_make(mod, ('slice', ty[1], 'ref'), v[0], pre, uid)})"
+    if k == "optstr":
+        return "std::nullopt" if v is None else f"std::optional<std::string_view>({cpp_make(mod, ('str', 'utf8', 'ref'), v[0], pre, uid)})"
+    raise ValueError(ty)
+
+
+def cpp_print(mod, ty, e, out, uid):
+    k = ty[0]
+    if k == "prim":
+        rust, c, bits, kind = PRIMS[ty[1]]
+        if kind == "b": out.append(f'printf("%d", (int)({e}));')
+        elif kind == "f": out.append(f'printf("%0{bits // 4}llx", (unsigned long long)bits_f{bits}({e}));')
+        elif kind == "u": out.append(f'printf("%llu", (unsigned long long)({e}));')
+        else: out.append(f'printf("%lld", (long long)({e}));')
+    elif k == "enum":
+        out.append(f'printf("e%lld", (long long)({e}).AsFFI());')
+    elif k == "struct":
+        n = uid(); out.append(f"{{ const {ty[1]}& {n} = {e}; printf(\"{{\");")
+        for i, (f, t) in enumerate(mod.structs[ty[1]]):
+            if i: out.append('printf(",");')
+            cpp_print(mod, t, f"{n}.{f}", out, uid)
+        out.append('printf("}"); }')
+    elif k == "zst":
+        out.append('printf("{}");')
+    elif k == "unit":
+        out.append('printf("()");')
+    elif k == "obox":
+        out.append(f'printf("#%lld", (long long)({e})->id());')
+    elif k == "orefret":
+        out.append(f'printf("#%lld", (long long)({e}).id());')
+    elif k in ("oboxopt", "orefopt"):
+        n = uid(); out.append(f'{{ const Op* {n} = {e}{".get()" if k == "oboxopt" else ""}; if ({n}) printf("S(#%lld)", (long long){n}->id()); else printf("N"); }}')
+    elif k == "opt":
+        n = uid(); out.append(f"{{ const auto& {n} = {e}; if ({n}.has_value()) {{ printf(\"S(\");")
+        cpp_print(mod, ty[2], f"{n}.value()", out, uid)
+        out.append('printf(")"); } else printf("N"); }')
+    elif k == "ordering":
+        out.append(f'printf("o%d", (int)({e}));')
+    else:
+        raise ValueError(ty)
+
+
+def has_direct_str(m):
+    return any(t[0] == "str" and t[1] == "utf8" for _, t in m["params"])
+
+
+def cpp_driver(mod, methods, calls):
+    cnt = [0]
+    def uid():
+        cnt[0] += 1
+        return f"v{cnt[0]}"
+    L = [CPP_PRELUDE, "int main() {"]
+    for ci, call in enumerate(calls):
+        m, pre, args = call["m"], [], []
+        selfx = None
+        if m["self"]:
+            n = uid(); pre.append(f"std::unique_ptr<Op> {n} = Op::new_({call['self']}LL);"); selfx = n
+        for (pn, t), v in zip(m["params"], call["args"]):
+            args.append(cpp_make(mod, t, v, pre, uid))
+        L.append("  {")
+        L += ["    " + s for s in pre]
+        L.append(f"    Op::set_sel({call['sel']});")
+        name = m["name"]
+        callx = (f"{selfx}->{name}" if selfx else f"Op::{name}") + "(" + ", ".join(args) + ")"
+        rt = m["ret"]
+        r = uid()
+        is_void = rt[0] == "unit" and not m["write"] and not has_direct_str(m)
+        L.append(f"    {callx};" if is_void else f"    auto&& {r}0 = {callx};")
+        L.append(f'    printf("call {ci} ret=");')
+        cur = None if is_void else f"{r}0"
+        close = []
+        if has_direct_str(m):
+            # generated wrapper validates UTF-8 first: result<R, Utf8Error>
+            L.append(f'    if ({cur}.is_err()) {{ printf("UTF8ERR"); }} else {{')
+            close.append("    }")
+            if rt[0] == "unit" and not m["write"]:
+                L.append('    printf("()");')
+                cur = None
+            else:
+                L.append(f"    auto {r}1 = std::move({cur}).ok().value();")
+                cur = f"{r}1"
+        inner = []
+        if is_void:
+            inner.append('printf("()");')
+        elif cur is None:
+            pass
+        elif m["write"]:
+            if rt[0] == "res":
+                inner.append(f'if ({cur}.is_ok()) {{ printf("O(())"); printf(" wr=%s", std::move({cur}).ok().value().c_str()); }} else {{ printf("E(");')
+                ev = uid(); inner.append(f"auto {ev} = std::move({cur}).err().value();")
+                if rt[2][0] in ("unit",): inner.append('printf("()");')
+                else: cpp_print(mod, rt[2], ev, inner, uid)
+                inner.append('printf(")"); }')
+            else:
+                inner.append(f'printf("() wr=%s", {cur}.c_str());')
+        elif rt[0] == "unit":
+            inner.append('printf("()");')
+        elif rt[0] == "res":
+            inner.append(f"if ({cur}.is_ok()) {{ printf(\"O(\");")
+            if rt[1][0] == "unit": inner.append('printf("()");')
+            else:
+                ov = uid(); inner.append(f"auto {ov} = std::move({cur}).ok().value();"); cpp_print(mod, rt[1], ov, inner, uid)
+            inner.append('printf(")"); } else { printf("E(");')
+            if rt[2][0] == "unit": inner.append('printf("()");')
+            else:
+                ev = uid(); inner.append(f"auto {ev} = std::move({cur}).err().value();"); cpp_print(mod, rt[2], ev, inner, uid)
+            inner.append('printf(")"); }')
+        else:
+            cpp_print(mod, rt, cur, inner, uid)
+        L += ["    " + s for s in inner] + close
+        L.append('    printf("\\n");')
+        L.append("    dump_log();")
+        L.append("  }")
+    L.append("  return 0;\n}")
+    return "\n".join(L)
+
+
+def cpp_scenarios(mod, methods, rng, per_method=3):
+    """like scenarios(), plus invalid UTF-8 in directly passed &str / Box<str> parameters (must be rejected on the C++ side)"""
+    calls = scenarios(mod, methods, rng, per_method)
+    bad = [[0xFF, 0x61], [0xC3], [0xED, 0xA0, 0x80], [0x61, 0xF4, 0x90, 0x80, 0x80], [0xC0, 0xAF]]
+    for call in calls:
+        m = call["m"]
+        idx = [i for i, (_, t) in enumerate(m["params"]) if t[0] == "str" and t[1] == "utf8" and t[2] == "ref"]
+        if idx and rng.random() < 0.35:
+            call["args"][rng.choice(idx)] = rng.choice(bad)
+            call["invalid_utf8"] = True
+    return calls
+
+
+def expected_cpp(mod, call):
+    if call.get("invalid_utf8"):
+        return "", "UTF8ERR", None
+    return expected(mod, call)
